@@ -26,6 +26,8 @@ type c10Case struct {
 	Prime   bool   // a default-flag run first, then perturbations, then the run under test
 	Perturb []string
 	Links   []string `json:",omitempty"` // native backend: these files (configs and artifacts) are symbolic links to files kept elsewhere
+	// ReadOnly: native backend: these files have no write permission bit (0444) whenever a run starts
+	ReadOnly []string `json:",omitempty"`
 }
 
 func runBackend(d *core.Dir, backend string, flags int) (core.RunResult, error) {
@@ -40,8 +42,8 @@ func runBackend(d *core.Dir, backend string, flags int) (core.RunResult, error) 
 }
 
 func (c *c10Case) run(d *core.Dir, flags int) (core.RunResult, error) {
-	if c.Backend == "native" && len(c.Links) > 0 {
-		return core.RunNativeLinks(d, flags, c.Links)
+	if c.Backend == "native" && (len(c.Links) > 0 || len(c.ReadOnly) > 0) {
+		return core.RunNativeLinksModes(d, flags, c.Links, c.ReadOnly)
 	}
 	return runBackend(d, c.Backend, flags)
 }
@@ -276,7 +278,23 @@ func genC10(t *rapid.T) c10Case {
 			default:
 				if f.Imported[e.EffAlias()] == "" {
 					c.Perturb = append(c.Perturb, "edit:"+e.EffAlias())
+					if c.Backend == "native" && rapid.Bool().Draw(t, fmt.Sprintf("ro%d", k)) {
+						// the artifact that is due for replacement (or any other file) has lost its write permission bits: the run
+						// replaces it all the same or fails saying so - it does not report success and leave the old certificate
+						c.ReadOnly = append(c.ReadOnly, core.PemPath(e.File))
+						if rapid.Bool().Draw(t, fmt.Sprintf("rocfg%d", k)) {
+							c.ReadOnly = append(c.ReadOnly, e.File)
+						}
+					}
 				}
+			}
+		}
+		if c.Backend == "native" && len(c.ReadOnly) == 0 && rapid.Bool().Draw(t, "ro-extra") {
+			e := &w.Ents[rapid.IntRange(0, len(w.Ents)-1).Draw(t, "ro-extra-ent")]
+			if f.Imported[e.EffAlias()] == "" {
+				c.Perturb = append(c.Perturb, "edit:"+e.EffAlias())
+				c.ReadOnly = append(c.ReadOnly, core.PemPath(e.File))
+				c.Flags |= core.FlagChanged
 			}
 		}
 	}
@@ -466,6 +484,9 @@ func TestC10(t *testing.T) {
 		}
 		if len(c.Links) > 0 {
 			cls = append(cls, "native-with-symlinks")
+		}
+		if len(c.ReadOnly) > 0 {
+			cls = append(cls, "native-with-read-only-files")
 		}
 		r.Case(key, cls...)
 		r.Sample("backend:"+c.Backend, map[string]any{"configs": w.Texts(), "flags": c.Flags, "prime": c.Prime, "perturb": c.Perturb, "imported": c.F.Imported})
